@@ -19,7 +19,9 @@ RULE = (
     "identity between layouts of one geometry. Oracle linear (unstructured or masked sources): an affine "
     "field is reproduced to 1e-9 strictly inside the convex hull of the unmasked source locations, outside "
     "masked or - with fill_with_nearest - equal to the nearest source value. non-trivial = a non-default "
-    "layout flag on each side, or a mask with masked and unmasked cells. distinct = canonical JSON."
+    "layout flag on each side, or a mask with masked and unmasked cells. large_enum: sources / targets with "
+    "65 536 .. 140 000 locations (fine to coarse, coarse to fine, fine to fine; rasters, quasi-random point "
+    "clouds, 3-D) against a chunked brute-force reference. distinct = canonical JSON."
 )
 ASSUMPTIONS = [
     "reference locations from vf/h_grid.py (structured) / own mean-of-nodes (unstructured)",
@@ -388,6 +390,133 @@ def enum_identity(tier):
             }
 
 
+# ------------------------------------------------------------------ large sources / targets (index widths, chunking)
+def _large_grid(g):
+    """-> (finam grid, flat locations, data_shape, order); compact descriptions of big grids"""
+    import finam as fm
+
+    if g["kind"] == "uni":
+        cfg = {"cls": "uni", "dims": g["dims"], "spacing": g["spacing"], "origin": g["origin"], "inc": g.get("inc", [True] * len(g["dims"])),
+               "order": g.get("order", "F"), "rev": g.get("rev", False), "loc": g.get("loc", "CELLS")}
+        grid = hg.build(cfg)
+        _LOC, shape, order = hg.ref(cfg)
+        return grid, hg.flat_locs(cfg), tuple(shape), order
+    # quasi-random points (Kronecker sequence: deterministic, pairwise distinct, no RNG)
+    k = np.arange(1, g["n"] + 1, dtype=float)
+    alphas = [0.7548776662466927, 0.5698402909980532, 0.8191725133961645][: g["dim"]]
+    pts = np.stack([(k * a) % 1.0 for a in alphas], axis=1) * np.asarray(g["extent"], float) + np.asarray(g["origin"], float)
+    return fm.UnstructuredPoints(pts), pts, (len(pts),), "C"
+
+
+def _hash_mask(n, num, den, salt):
+    if not num:
+        return None
+    k = np.arange(n, dtype=np.int64)
+    return ((k * 2654435761 + salt) % 1000003) % den < num
+
+
+def check_large(case, ctx):
+    """sources (or targets) with more than 2^16 locations: nearest / linear+fill against a chunked brute-force
+    Euclidean reference - regridding fine to coarse, coarse to fine and fine to fine"""
+    import finam as fm
+
+    sg, S, sshape, sorder = _large_grid(case["src"])
+    tg, T, tshape, torder = _large_grid(case["tgt"])
+    ns, nt, dim = len(S), len(T), S.shape[1]
+    smask = _hash_mask(ns, *case.get("smask", (0, 1)), 17)
+    tmask = _hash_mask(nt, *case.get("tmask", (0, 1)), 91)
+    method = case["method"]
+    ctx.nontrivial(True)
+    ctx.event(f"{method}: {ns} -> {nt} locations, {dim}D")
+    coef = np.array([1.5, -2.0, 0.75])[:dim]
+    wloc = np.array([1.0e6, 1.0e3, 1.0])[:dim]  # nearest: the value encodes the location (coordinates < 1000, distinct)
+    vals = S @ wloc if method == "nearest" else S @ coef + 3.0
+    keep = np.ones(ns, bool) if smask is None else ~smask
+    data = vals.copy()
+    data[~keep] = SENTINEL
+    payload = to_shape(data, sshape, sorder)
+    if smask is not None:
+        payload = np.ma.array(payload, mask=to_shape(smask, sshape, sorder))
+    pinfo = fm.Info(time=hs.T0, grid=sg, units="m", mask=(to_shape(smask, sshape, sorder) if smask is not None else fm.Mask.FLEX))
+    cinfo = fm.Info(time=hs.T0, grid=tg, units="m", mask=(to_shape(tmask, tshape, torder) if tmask is not None else fm.Mask.FLEX))
+    ada = fm.adapters.RegridNearest() if method == "nearest" else fm.adapters.RegridLinear(fill_with_nearest=True)
+    out, inp = fm.Output(name="o", info=pinfo), fm.Input(name="i", info=cinfo)
+    out >> ada >> inp
+    inp.ping()
+    inp.exchange_info()
+    out.push_data(payload, hs.T0)
+    m = inp.pull_data(hs.T0).magnitude
+    info = f" | case {case}"
+    if tuple(m.shape) != (1,) + tuple(tshape):
+        ctx.violation("large-shape", f"result shape {m.shape}, target data shape {tshape}" + info)
+        return
+    got = np.ma.getdata(m[0]).ravel(order=torder)
+    gmask = np.ma.getmaskarray(m[0]).ravel(order=torder)
+    tkeep = np.ones(nt, bool) if tmask is None else ~tmask
+    if np.any(gmask[tkeep]) or np.any(~gmask[~tkeep]):
+        ctx.violation("large-mask", "result mask differs from the target mask" + info)
+        return
+    Ssel, vsel = S[keep], vals[keep]
+    lo, hi = Ssel.min(axis=0), Ssel.max(axis=0)
+    inner_lo, inner_hi = lo + 0.1 * (hi - lo), hi - 0.1 * (hi - lo)
+    bad = []
+    separable = method == "nearest" and case["src"]["kind"] == "uni" and smask is None
+    if separable:
+        # unmasked product grid: the Euclidean-nearest location is the per-axis nearest coordinate (both on ties)
+        ctx.event("reference=per-axis nearest (product grid)")
+        cand = []  # per axis: (n targets, 2) candidate coordinates, NaN where not within 1e-9 of the minimum
+        for d in range(dim):
+            c = np.unique(S[:, d])
+            i = np.clip(np.searchsorted(c, T[:, d]), 1, len(c) - 1) if len(c) > 1 else np.zeros(nt, int)
+            two = np.stack([c[np.maximum(i - 1, 0)], c[i]], axis=1)
+            dist = np.abs(two - T[:, d][:, None])
+            two[dist > dist.min(axis=1)[:, None] + 1e-9] = np.nan
+            cand.append(two)
+        okv = np.zeros(nt, bool)
+        for combo in itertools.product((0, 1), repeat=dim):
+            v = sum(cand[d][:, combo[d]] * wloc[d] for d in range(dim))
+            okv |= np.isclose(v, got, rtol=0, atol=1e-6)
+        bad = np.nonzero(tkeep & ~okv)[0].tolist()
+    elif int(tkeep.sum()) > 4000:
+        raise AssertionError("harness: brute-force reference only for coarse targets")
+    for a in ([] if separable else range(0, nt, 64)):
+        idx = np.arange(a, min(nt, a + 64))
+        idx = idx[tkeep[idx]]
+        if not len(idx):
+            continue
+        D = np.sqrt(((T[idx][:, None, :] - Ssel[None, :, :]) ** 2).sum(axis=2))
+        near = D <= D.min(axis=1)[:, None] + 1e-9
+        if method == "nearest":
+            okv = np.any(near & np.isclose(vsel[None, :], got[idx][:, None], rtol=0, atol=1e-6), axis=1)
+        else:
+            outside = np.any((T[idx] < lo - 1e-6) | (T[idx] > hi + 1e-6), axis=1)  # outside the bounding box => outside the hull
+            inside = np.all((T[idx] > inner_lo) & (T[idx] < inner_hi), axis=1)  # well inside 90000 quasi-random points' hull
+            aff = T[idx] @ coef + 3.0
+            ok_in = np.abs(got[idx] - aff) <= 1e-7 * np.maximum(1.0, np.abs(aff))
+            ok_out = np.any(near & np.isclose(vsel[None, :], got[idx][:, None], rtol=0, atol=1e-6), axis=1)
+            okv = np.where(inside, ok_in, np.where(outside, ok_out, True))  # the rim between is not judged
+        bad += idx[~okv].tolist()
+    if bad:
+        j = bad[0]
+        ctx.violation(f"large-{method}-value", f"{len(bad)} of {int(tkeep.sum())} target locations wrong, e.g. target {j} at {T[j]}: got {got[j]}" + info)
+
+
+def enum_large(tier):
+    fine = {"kind": "uni", "dims": [301, 301], "spacing": [1.0, 1.0], "origin": [0.0, 0.0]}
+    coarse = {"kind": "uni", "dims": [22, 23], "spacing": [13.7, 13.1], "origin": [0.37, 0.21]}
+    yield {"src": fine, "tgt": coarse, "method": "nearest"}
+    yield {"src": dict(fine, order="C", rev=True, inc=[True, False]), "tgt": dict(coarse, order="C", inc=[False, True]), "method": "nearest", "smask": (3, 10), "tmask": (2, 10)}
+    yield {"src": dict(fine, dims=[257, 257]), "tgt": coarse, "method": "nearest"}  # exactly 2^16 source cells
+    yield {"src": dict(fine, dims=[258, 257]), "tgt": coarse, "method": "nearest", "smask": (1, 50)}
+    yield {"src": dict(fine, loc="POINTS", dims=[300, 300]), "tgt": {"kind": "points", "n": 1200, "dim": 2, "extent": [299.0, 299.0], "origin": [0.0, 0.0]}, "method": "nearest"}
+    yield {"src": {"kind": "points", "n": 90000, "dim": 2, "extent": [300.0, 300.0], "origin": [0.0, 0.0]}, "tgt": coarse, "method": "nearest", "smask": (1, 4)}
+    yield {"src": {"kind": "points", "n": 70000, "dim": 2, "extent": [250.0, 250.0], "origin": [20.0, 20.0]}, "tgt": coarse, "method": "linear"}
+    yield {"src": {"kind": "points", "n": 140000, "dim": 2, "extent": [250.0, 250.0], "origin": [20.0, 20.0]}, "tgt": dict(coarse, order="C", rev=True), "method": "linear", "smask": (1, 3)}
+    yield {"src": {"kind": "uni", "dims": [42, 42, 41], "spacing": [1.0, 1.0, 1.0], "origin": [0.0, 0.0, 0.0]}, "tgt": {"kind": "uni", "dims": [7, 6, 7], "spacing": [6.1, 7.3, 5.9], "origin": [0.4, 0.2, 0.3]}, "method": "nearest", "smask": (1, 7)}
+    yield {"src": coarse, "tgt": dict(fine, dims=[281, 280], origin=[2.0, 3.0]), "method": "nearest", "tmask": (1, 9)}  # coarse to fine
+    yield {"src": fine, "tgt": dict(fine, dims=[271, 281], spacing=[1.1, 1.05], origin=[0.3, 0.2], order="C"), "method": "nearest"}  # fine to fine
+
+
 def parts():
     return [
         Part("identity_enum", check, enumerate=enum_identity, exhaustive=True),
@@ -395,4 +524,5 @@ def parts():
         Part("identity_gen", check, strategy=identity_case(), budget={"quick": 300, "thorough": 10000}),
         Part("shifted_rasters", check, strategy=shifted_case(), budget={"quick": 300, "thorough": 10000}),
         Part("linear", check, strategy=linear_case(), budget={"quick": 700, "thorough": 24000}),
+        Part("large_enum", check_large, enumerate=enum_large, exhaustive=True),
     ]
